@@ -237,6 +237,21 @@ def helper(expr: str, engine: str):
     return check
 
 
+class _Lacks:
+    """reference for a field the record lacks: every comparison is false (the statement), so its negation is true"""
+
+    def _f(self, other):
+        return False
+
+    __eq__ = __ne__ = __lt__ = __le__ = __gt__ = __ge__ = _f
+    __hash__ = None
+
+    def __contains__(self, x):
+        return False
+
+
+# programs that are TRUE on records lacking the field (negation / disjunction): those records belong to the output too
+STREAM_PROGRAMS_NEG = ["not (r.n == 2)", "not (r.n < 2) and not (r.n > 4)", "r.n == 1 or not (r.n >= 0)", "not (r.n in [1, 2])", "not (r.n != 2)"]
 STREAM_PROGRAMS = ["r.n == 2", "r.n != 2", "r.n < 2", "r.n <= 2", "r.n > 2", "r.n >= 2", "r.n in [1, 2]", "2 < r.n", "2 >= r.n", "r.n != 2 and r.n != 3", "r.n > 1 and r.n < 5", "r.n == 1 or r.n >= 3"]
 
 
@@ -292,11 +307,13 @@ def stream(expr: str, engine: str, via: str, same: bool = False, order: int = 0)
             pass
 
         exp = []
-        for a, v in ((a1, n1), (a2, n2), (a3, n3)):
+        order_ = [x for src in ("one", "two") for x in sources[src]]
+        vals_ = {id(a1): n1, id(a2): n2, id(a3): n3}
+        for x in order_:
             r = R()
-            r.n = v
+            r.n = vals_[id(x)] if id(x) in vals_ else _Lacks()
             if eval(ref, {"r": r}):
-                exp.append(a)
+                exp.append(x)
         if via == "reader":
             got = list(mkreader(sources["one"], sel)) + list(mkreader(sources["two"], sel))
         else:
@@ -322,7 +339,7 @@ def obligations(tier, seed):
     for i, e in enumerate(HELPERS):
         for eng in "ic":
             obs.append(ob(f"helper/{eng}/{i}:{e}", "xh", "helper", {"expr": e, "engine": eng}, timeout=to, group="helper", bounds="s: all strings <= 2 chars", hunt_only=(("field_equals" in e or "field_contains" in e) and "nocase=False" not in e)))
-    for i, e in enumerate(STREAM_PROGRAMS):
+    for i, e in enumerate(STREAM_PROGRAMS + STREAM_PROGRAMS_NEG):
         for eng in "ic":
             for via in ("reader", "record_stream"):
                 obs.append(ob(f"stream/{via}/{eng}/{i}:{e}", "xh", "stream", {"expr": e, "engine": eng, "via": via}, timeout=to * 2, group=f"stream/{via}", bounds="n1, n2, n3: all ints"))
@@ -437,10 +454,11 @@ def replay(res):
                     pass
 
                 exp = []
-                for n in ns_:
-                    r = R(); r.n = n
+                for rec_ in one + two:
+                    r = R()
+                    r.n = int(rec_.n) if hasattr(rec_, "n") else _Lacks()
                     if eval(a["expr"], {"r": r}):
-                        exp.append(("test/a", n))
+                        exp.append((rec_._desc.name, getattr(rec_, "n", None)))
                 if got != exp:
                     return {
                         "reproduced": True,
